@@ -282,15 +282,6 @@ func (e *Engine) intrinsic(fr *frame, fn *ssa.Function, args []Value, c *ssa.Cal
 	case "Pick":
 		tag := e.tagName(args[0])
 		n := int(e.mustConst(args[1].(*Term), "Pick n"))
-		if e.cfg.Replay != nil {
-			picks, _ := e.cfg.Replay["__picks"].([]any)
-			k := e.tagcount["__pickpos"]
-			e.tagcount["__pickpos"] = k + 1
-			if k < len(picks) {
-				return e.c64(toU64(picks[k]))
-			}
-			return e.c64(0)
-		}
 		_ = tag
 		return e.c64(uint64(e.pick(n)))
 	case "Assume":
@@ -334,9 +325,6 @@ func (e *Engine) intrinsic(fr *frame, fn *ssa.Function, args []Value, c *ssa.Cal
 		// scheduled mode: goroutines become engine threads; (preemption budget, scheduling-point bound)
 		b := int(e.mustConst(args[0].(*Term), "Scheduled budget"))
 		mp := int(e.mustConst(args[1].(*Term), "Scheduled bound"))
-		if e.cfg.Replay != nil {
-			return nil
-		}
 		e.threads = newThreadState(b, mp)
 		return nil
 	case "Yield":
